@@ -3,7 +3,6 @@
   capacity) is preserved by every event; consequences used in Props/C11.lean.
 -/
 import LibfiberVerif.Proof.MultiChanRing
-import LibfiberVerif.Proof.MultiChan
 
 set_option linter.unusedSimpArgs false
 set_option linter.deprecated false
@@ -14,7 +13,7 @@ macro "mr_close" : tactic =>
   `(tactic| (intros; (try simp only [upd, val, sentBy] at *); first | done | grind [Pc.pending, Op.pend, Pc.inCS]))
 
 set_option maxHeartbeats 4000000 in
-theorem rinv_step_callSend (s s' : St) (f v : _) (hi : Inv s) (hr : RInv s) (hs : step s (.callSend f v) = some s') : RInv s' := by
+theorem rinv_step_callSend (s s' : St) (f v : _) (hi : LInv s) (hr : RInv s) (hs : step s (.callSend f v) = some s') : RInv s' := by
   have hR := hr
   obtain ⟨r1, r2, r3, r4, r5, r6, r7, r8, r9, r10, r11⟩ := hr
   simp only [step] at hs
@@ -24,7 +23,7 @@ theorem rinv_step_callSend (s s' : St) (f v : _) (hi : Inv s) (hr : RInv s) (hs 
   all_goals (constructor <;> mr_close)
 
 set_option maxHeartbeats 4000000 in
-theorem rinv_step_retSend (s s' : St) (f : _) (hi : Inv s) (hr : RInv s) (hs : step s (.retSend f) = some s') : RInv s' := by
+theorem rinv_step_retSend (s s' : St) (f : _) (hi : LInv s) (hr : RInv s) (hs : step s (.retSend f) = some s') : RInv s' := by
   have hR := hr
   obtain ⟨r1, r2, r3, r4, r5, r6, r7, r8, r9, r10, r11⟩ := hr
   simp only [step] at hs
@@ -34,7 +33,7 @@ theorem rinv_step_retSend (s s' : St) (f : _) (hi : Inv s) (hr : RInv s) (hs : s
   all_goals (constructor <;> mr_close)
 
 set_option maxHeartbeats 4000000 in
-theorem rinv_step_callRecv (s s' : St) (f : _) (hi : Inv s) (hr : RInv s) (hs : step s (.callRecv f) = some s') : RInv s' := by
+theorem rinv_step_callRecv (s s' : St) (f : _) (hi : LInv s) (hr : RInv s) (hs : step s (.callRecv f) = some s') : RInv s' := by
   have hR := hr
   obtain ⟨r1, r2, r3, r4, r5, r6, r7, r8, r9, r10, r11⟩ := hr
   simp only [step] at hs
@@ -44,7 +43,7 @@ theorem rinv_step_callRecv (s s' : St) (f : _) (hi : Inv s) (hr : RInv s) (hs : 
   all_goals (constructor <;> mr_close)
 
 set_option maxHeartbeats 4000000 in
-theorem rinv_step_retRecv (s s' : St) (f v : _) (hi : Inv s) (hr : RInv s) (hs : step s (.retRecv f v) = some s') : RInv s' := by
+theorem rinv_step_retRecv (s s' : St) (f v : _) (hi : LInv s) (hr : RInv s) (hs : step s (.retRecv f v) = some s') : RInv s' := by
   have hR := hr
   obtain ⟨r1, r2, r3, r4, r5, r6, r7, r8, r9, r10, r11⟩ := hr
   simp only [step] at hs
@@ -54,7 +53,7 @@ theorem rinv_step_retRecv (s s' : St) (f v : _) (hi : Inv s) (hr : RInv s) (hs :
   all_goals (constructor <;> mr_close)
 
 set_option maxHeartbeats 4000000 in
-theorem rinv_step_fsub (s s' : St) (f old : _) (hi : Inv s) (hr : RInv s) (hs : step s (.fsub f old) = some s') : RInv s' := by
+theorem rinv_step_fsub (s s' : St) (f old : _) (hi : LInv s) (hr : RInv s) (hs : step s (.fsub f old) = some s') : RInv s' := by
   have hR := hr
   obtain ⟨r1, r2, r3, r4, r5, r6, r7, r8, r9, r10, r11⟩ := hr
   simp only [step] at hs
@@ -64,7 +63,7 @@ theorem rinv_step_fsub (s s' : St) (f old : _) (hi : Inv s) (hr : RInv s) (hs : 
   all_goals (constructor <;> mr_close)
 
 set_option maxHeartbeats 4000000 in
-theorem rinv_step_fadd (s s' : St) (f old : _) (hi : Inv s) (hr : RInv s) (hs : step s (.fadd f old) = some s') : RInv s' := by
+theorem rinv_step_fadd (s s' : St) (f old : _) (hi : LInv s) (hr : RInv s) (hs : step s (.fadd f old) = some s') : RInv s' := by
   have hR := hr
   obtain ⟨r1, r2, r3, r4, r5, r6, r7, r8, r9, r10, r11⟩ := hr
   simp only [step] at hs
@@ -74,7 +73,7 @@ theorem rinv_step_fadd (s s' : St) (f old : _) (hi : Inv s) (hr : RInv s) (hs : 
   all_goals (constructor <;> mr_close)
 
 set_option maxHeartbeats 4000000 in
-theorem rinv_step_handoff (s s' : St) (f g : _) (hi : Inv s) (hr : RInv s) (hs : step s (.handoff f g) = some s') : RInv s' := by
+theorem rinv_step_handoff (s s' : St) (f g : _) (hi : LInv s) (hr : RInv s) (hs : step s (.handoff f g) = some s') : RInv s' := by
   have hR := hr
   obtain ⟨r1, r2, r3, r4, r5, r6, r7, r8, r9, r10, r11⟩ := hr
   simp only [step] at hs
@@ -84,7 +83,7 @@ theorem rinv_step_handoff (s s' : St) (f g : _) (hi : Inv s) (hr : RInv s) (hs :
   all_goals (constructor <;> mr_close)
 
 set_option maxHeartbeats 4000000 in
-theorem rinv_step_rHigh (s s' : St) (f h : _) (hi : Inv s) (hr : RInv s) (hs : step s (.rHigh f h) = some s') : RInv s' := by
+theorem rinv_step_rHigh (s s' : St) (f h : _) (hi : LInv s) (hr : RInv s) (hs : step s (.rHigh f h) = some s') : RInv s' := by
   have hR := hr
   obtain ⟨r1, r2, r3, r4, r5, r6, r7, r8, r9, r10, r11⟩ := hr
   simp only [step] at hs
@@ -94,7 +93,7 @@ theorem rinv_step_rHigh (s s' : St) (f h : _) (hi : Inv s) (hr : RInv s) (hs : s
   all_goals (constructor <;> mr_close)
 
 set_option maxHeartbeats 4000000 in
-theorem rinv_step_rLow (s s' : St) (f l : _) (hi : Inv s) (hr : RInv s) (hs : step s (.rLow f l) = some s') : RInv s' := by
+theorem rinv_step_rLow (s s' : St) (f l : _) (hi : LInv s) (hr : RInv s) (hs : step s (.rLow f l) = some s') : RInv s' := by
   have hR := hr
   obtain ⟨r1, r2, r3, r4, r5, r6, r7, r8, r9, r10, r11⟩ := hr
   simp only [step] at hs
@@ -104,7 +103,7 @@ theorem rinv_step_rLow (s s' : St) (f l : _) (hi : Inv s) (hr : RInv s) (hs : st
   all_goals (constructor <;> mr_close)
 
 set_option maxHeartbeats 4000000 in
-theorem rinv_step_rWaiters (s s' : St) (f w : _) (hi : Inv s) (hr : RInv s) (hs : step s (.rWaiters f w) = some s') : RInv s' := by
+theorem rinv_step_rWaiters (s s' : St) (f w : _) (hi : LInv s) (hr : RInv s) (hs : step s (.rWaiters f w) = some s') : RInv s' := by
   have hR := hr
   obtain ⟨r1, r2, r3, r4, r5, r6, r7, r8, r9, r10, r11⟩ := hr
   simp only [step] at hs
@@ -114,7 +113,7 @@ theorem rinv_step_rWaiters (s s' : St) (f w : _) (hi : Inv s) (hr : RInv s) (hs 
   all_goals (constructor <;> mr_close)
 
 set_option maxHeartbeats 4000000 in
-theorem rinv_step_wWaiters (s s' : St) (f w : _) (hi : Inv s) (hr : RInv s) (hs : step s (.wWaiters f w) = some s') : RInv s' := by
+theorem rinv_step_wWaiters (s s' : St) (f w : _) (hi : LInv s) (hr : RInv s) (hs : step s (.wWaiters f w) = some s') : RInv s' := by
   have hR := hr
   obtain ⟨r1, r2, r3, r4, r5, r6, r7, r8, r9, r10, r11⟩ := hr
   simp only [step] at hs
@@ -124,7 +123,7 @@ theorem rinv_step_wWaiters (s s' : St) (f w : _) (hi : Inv s) (hr : RInv s) (hs 
   all_goals (constructor <;> mr_close)
 
 set_option maxHeartbeats 4000000 in
-theorem rinv_step_rScratch (s s' : St) (f g x : _) (hi : Inv s) (hr : RInv s) (hs : step s (.rScratch f g x) = some s') : RInv s' := by
+theorem rinv_step_rScratch (s s' : St) (f g x : _) (hi : LInv s) (hr : RInv s) (hs : step s (.rScratch f g x) = some s') : RInv s' := by
   have hR := hr
   obtain ⟨r1, r2, r3, r4, r5, r6, r7, r8, r9, r10, r11⟩ := hr
   simp only [step] at hs
@@ -134,7 +133,7 @@ theorem rinv_step_rScratch (s s' : St) (f g x : _) (hi : Inv s) (hr : RInv s) (h
   all_goals (constructor <;> mr_close)
 
 set_option maxHeartbeats 4000000 in
-theorem rinv_step_wScratch (s s' : St) (f g x : _) (hi : Inv s) (hr : RInv s) (hs : step s (.wScratch f g x) = some s') : RInv s' := by
+theorem rinv_step_rSWaiters (s s' : St) (f w : _) (hi : LInv s) (hr : RInv s) (hs : step s (.rSWaiters f w) = some s') : RInv s' := by
   have hR := hr
   obtain ⟨r1, r2, r3, r4, r5, r6, r7, r8, r9, r10, r11⟩ := hr
   simp only [step] at hs
@@ -144,7 +143,7 @@ theorem rinv_step_wScratch (s s' : St) (f g x : _) (hi : Inv s) (hr : RInv s) (h
   all_goals (constructor <;> mr_close)
 
 set_option maxHeartbeats 4000000 in
-theorem rinv_step_wStateWaiting (s s' : St) (f : _) (hi : Inv s) (hr : RInv s) (hs : step s (.wStateWaiting f) = some s') : RInv s' := by
+theorem rinv_step_wSWaiters (s s' : St) (f w : _) (hi : LInv s) (hr : RInv s) (hs : step s (.wSWaiters f w) = some s') : RInv s' := by
   have hR := hr
   obtain ⟨r1, r2, r3, r4, r5, r6, r7, r8, r9, r10, r11⟩ := hr
   simp only [step] at hs
@@ -154,7 +153,7 @@ theorem rinv_step_wStateWaiting (s s' : St) (f : _) (hi : Inv s) (hr : RInv s) (
   all_goals (constructor <;> mr_close)
 
 set_option maxHeartbeats 4000000 in
-theorem rinv_step_wStateReady (s s' : St) (f g : _) (hi : Inv s) (hr : RInv s) (hs : step s (.wStateReady f g) = some s') : RInv s' := by
+theorem rinv_step_wScratch (s s' : St) (f g x : _) (hi : LInv s) (hr : RInv s) (hs : step s (.wScratch f g x) = some s') : RInv s' := by
   have hR := hr
   obtain ⟨r1, r2, r3, r4, r5, r6, r7, r8, r9, r10, r11⟩ := hr
   simp only [step] at hs
@@ -164,7 +163,27 @@ theorem rinv_step_wStateReady (s s' : St) (f g : _) (hi : Inv s) (hr : RInv s) (
   all_goals (constructor <;> mr_close)
 
 set_option maxHeartbeats 4000000 in
-theorem rinv_step_rBuf (s s' : St) (f i x : Nat) (hi : Inv s) (hr : RInv s)
+theorem rinv_step_wStateWaiting (s s' : St) (f : _) (hi : LInv s) (hr : RInv s) (hs : step s (.wStateWaiting f) = some s') : RInv s' := by
+  have hR := hr
+  obtain ⟨r1, r2, r3, r4, r5, r6, r7, r8, r9, r10, r11⟩ := hr
+  simp only [step] at hs
+  repeat' (split at hs)
+  all_goals (try simp at hs)
+  all_goals (first | subst hs | (obtain ⟨_, hs⟩ := hs; subst hs))
+  all_goals (constructor <;> mr_close)
+
+set_option maxHeartbeats 4000000 in
+theorem rinv_step_wStateReady (s s' : St) (f g : _) (hi : LInv s) (hr : RInv s) (hs : step s (.wStateReady f g) = some s') : RInv s' := by
+  have hR := hr
+  obtain ⟨r1, r2, r3, r4, r5, r6, r7, r8, r9, r10, r11⟩ := hr
+  simp only [step] at hs
+  repeat' (split at hs)
+  all_goals (try simp at hs)
+  all_goals (first | subst hs | (obtain ⟨_, hs⟩ := hs; subst hs))
+  all_goals (constructor <;> mr_close)
+
+set_option maxHeartbeats 4000000 in
+theorem rinv_step_rBuf (s s' : St) (f i x : Nat) (hi : LInv s) (hr : RInv s)
     (hs : step s (.rBuf f i x) = some s') : RInv s' := by
   have hR := hr
   obtain ⟨r1, r2, r3, r4, r5, r6, r7, r8, r9, r10, r11⟩ := hr
@@ -192,7 +211,7 @@ theorem rinv_step_rBuf (s s' : St) (f i x : Nat) (hi : Inv s) (hr : RInv s)
   all_goals mr_close
 
 set_option maxHeartbeats 4000000 in
-theorem rinv_step_wLow (s s' : St) (f l : Nat) (hi : Inv s) (hr : RInv s)
+theorem rinv_step_wLow (s s' : St) (f l : Nat) (hi : LInv s) (hr : RInv s)
     (hs : step s (.wLow f l) = some s') : RInv s' := by
   have hR := hr
   obtain ⟨r1, r2, r3, r4, r5, r6, r7, r8, r9, r10, r11⟩ := hr
@@ -257,7 +276,7 @@ theorem rinv_step_wLow (s s' : St) (f l : Nat) (hi : Inv s) (hr : RInv s)
   all_goals mr_close
 
 /-- the slot a sender is about to write is free: NULL, and the ring is not full -/
-theorem send_slot_free {s : St} (hi : Inv s) (hr : RInv s) (f v h l : Nat)
+theorem send_slot_free {s : St} (hi : LInv s) (hr : RInv s) (f v h l : Nat)
     (hpc : s.pc f = .gotLow (.send v) h l) (hlt : h - l < s.cap) :
     s.buf (h % s.cap) = 0 ∧ s.high - s.low < s.cap := by
   obtain ⟨hh, hl⟩ := hi.gotLow_eq f (.send v) h l hpc
@@ -271,7 +290,7 @@ theorem send_slot_free {s : St} (hi : Inv s) (hr : RInv s) (f v h l : Nat)
     subst this; rw [hpc] at hg; simp at hg
 
 set_option maxHeartbeats 4000000 in
-theorem rinv_step_wBuf (s s' : St) (f i x : Nat) (hi : Inv s) (hr : RInv s)
+theorem rinv_step_wBuf (s s' : St) (f i x : Nat) (hi : LInv s) (hr : RInv s)
     (hs : step s (.wBuf f i x) = some s') : RInv s' := by
   have hR := hr
   obtain ⟨r1, r2, r3, r4, r5, r6, r7, r8, r9, r10, r11⟩ := hr
@@ -379,7 +398,7 @@ theorem rinv_step_wBuf (s s' : St) (f i x : Nat) (hi : Inv s) (hr : RInv s)
   · simp at hs
 
 set_option maxHeartbeats 4000000 in
-theorem rinv_step_wHigh (s s' : St) (f h : Nat) (hi : Inv s) (hr : RInv s)
+theorem rinv_step_wHigh (s s' : St) (f h : Nat) (hi : LInv s) (hr : RInv s)
     (hs : step s (.wHigh f h) = some s') : RInv s' := by
   have hR := hr
   obtain ⟨r1, r2, r3, r4, r5, r6, r7, r8, r9, r10, r11⟩ := hr
@@ -467,7 +486,7 @@ theorem rinv_step_wHigh (s s' : St) (f h : Nat) (hi : Inv s) (hr : RInv s)
     · simp [Pc.pending] at hv
     · exact r11 g v2 hv
 
-theorem rinv_step (s s' : St) (e : Ev) (hi : Inv s) (hr : RInv s) (hs : step s e = some s') : RInv s' := by
+theorem rinv_step (s s' : St) (e : Ev) (hi : LInv s) (hr : RInv s) (hs : step s e = some s') : RInv s' := by
   cases e with
   | callSend f v => exact rinv_step_callSend s s' f v hi hr hs
   | retSend f => exact rinv_step_retSend s s' f hi hr hs
@@ -488,11 +507,14 @@ theorem rinv_step (s s' : St) (e : Ev) (hi : Inv s) (hr : RInv s) (hs : step s e
   | wScratch f g x => exact rinv_step_wScratch s s' f g x hi hr hs
   | wStateWaiting f => exact rinv_step_wStateWaiting s s' f hi hr hs
   | wStateReady f g => exact rinv_step_wStateReady s s' f g hi hr hs
+  | rSWaiters f w => exact rinv_step_rSWaiters s s' f w hi hr hs
+  | wSWaiters f w => exact rinv_step_wSWaiters s s' f w hi hr hs
 
-theorem rinv_of_run {cap : Nat} {es : List Ev} {s : St} (h : (sys cap).run es = some s) : RInv s := by
-  have : Inv s ∧ RInv s :=
-    Sys.inv_of_run (sys cap) (fun s => Inv s ∧ RInv s) ⟨inv_init cap, rinv_init cap⟩
-      (fun s e s' hi hs => ⟨inv_step s s' e hi.1 hs, rinv_step s s' e hi.1 hi.2 hs⟩) h
+theorem rinv_of_run {two : Bool} {cap : Nat} {es : List Ev} {s : St} (h : (sys two cap).run es = some s) :
+    RInv s := by
+  have : LInv s ∧ RInv s :=
+    Sys.inv_of_run (sys two cap) (fun s => LInv s ∧ RInv s) ⟨linv_init two cap, rinv_init two cap⟩
+      (fun s e s' hi hs => ⟨linv_step s s' e hi.1 hs, rinv_step s s' e hi.1 hi.2 hs⟩) h
   exact this.2
 
 end LibfiberVerif.MultiChan
